@@ -323,10 +323,16 @@ func checkBreakGuards(c *Ctx, rule string) {
 		c.Bad(rule, "open-step", "-", "no function increments the hand counter")
 		return
 	}
-	isBreakCall := func(s *Sym) bool {
-		return s.IsCall("TableBlindState.IsBreaking")
+	// the predicates are asked of the table's mutable level (State.BlindState), not of the
+	// previous hand's published snapshot or anything else
+	ofLevel := func(s *Sym) bool {
+		s = s.Strip()
+		return len(s.Args) >= 1 && s.Args[0].Strip().IsField("TableState", "BlindState")
 	}
-	isSetCall := func(s *Sym) bool { return s.IsCall("TableBlindState.IsSet") }
+	isBreakCall := func(s *Sym) bool {
+		return s.IsCall("TableBlindState.IsBreaking") && ofLevel(s)
+	}
+	isSetCall := func(s *Sym) bool { return s.IsCall("TableBlindState.IsSet") && ofLevel(s) }
 	var guarded []ssa.Instruction
 	guarded = append(guarded, incr.Instr)
 	for _, ci := range Calls(openFn) {
